@@ -8,15 +8,17 @@
 #define NT 3
 static parsec_taskpool_t tp[NT + 2];
 static int got_id[NT + 2];
-static void *seen_array[8]; static int nseen;
+static void *seen_array[16]; static int nseen;
 
+static size_t seen_size[16];
 NOSAN static void watch_array(void)
 {
-    void *a = (void *)taskpool_array; if (!a) return;
-    for (int i = 0; i < nseen; i++) if (seen_array[i] == a) return;
-    if (nseen >= 8) abort();
-    seen_array[nseen++] = a;
-    cs_watch(a, taskpool_array_size * sizeof(void *), "array");
+    /* (address, size) pairs: the allocator may hand a freed address out again with another size */
+    void *a = (void *)taskpool_array; size_t sz = taskpool_array_size * sizeof(void *); if (!a) return;
+    for (int i = 0; i < nseen; i++) if (seen_array[i] == a && seen_size[i] == sz) return;
+    if (nseen >= 16) abort();
+    seen_array[nseen] = a; seen_size[nseen++] = sz;
+    cs_watch(a, sz, "array");
 }
 NOSAN static void note(int who, int id) { got_id[who] = id; }
 
@@ -60,9 +62,17 @@ static void finish(int npre, int nres, const int *registered)
     cs_observe(" size=%u", taskpool_array_size);
 }
 
-/* --- scenario 1: three concurrent reserve; register; lookup(own) on a fresh registry (two array doublings inside the window) --- */
+/* --- scenario 1: three concurrent reservations on a fresh registry (two array doublings inside the window) --- */
+static void s1_body(void *a) { int me = (int)(intptr_t)a; v_reserve(me); }
+static void scen1(void)
+{
+    begin(0); cs_body_t b[] = { s1_body, s1_body, s1_body }; void *args[] = { (void *)0, (void *)1, (void *)2 };
+    cs_run(3, b, args);
+    int reg[NT + 2] = { 0, 0, 0, 0, 0 }; finish(0, 3, reg);
+}
+/* --- scenario 1b: two threads: reserve; lookup(own) = nothing; register; lookup(own) = it --- */
 static int s1_mid[NT];
-static void s1_body(void *a)
+static void s1b_body(void *a)
 {
     int me = (int)(intptr_t)a; int id = v_reserve(me);
     int before = idx_of(v_lookup(id));                      /* reserved, not yet registered: nothing */
@@ -70,12 +80,12 @@ static void s1_body(void *a)
     int after = idx_of(v_lookup(id));                       /* registered: it */
     s1_mid[me] = (before == -1 && after == me) ? 0 : (before != -1 ? 1 : 2);
 }
-static void scen1(void)
+static void scen1b(void)
 {
-    begin(0); cs_body_t b[] = { s1_body, s1_body, s1_body }; void *args[] = { (void *)0, (void *)1, (void *)2 };
-    cs_run(3, b, args);
-    for (int i = 0; i < NT; i++) { CS_CHECK(s1_mid[i] != 1, "thread %d: lookup of its reserved but unregistered identifier %d returned a taskpool", i, got_id[i]); CS_CHECK(s1_mid[i] != 2, "thread %d: lookup of its registered identifier %d did not return its taskpool", i, got_id[i]); }
-    int reg[NT + 2] = { 1, 1, 1, 0, 0 }; finish(0, 3, reg);
+    begin(0); cs_body_t b[] = { s1b_body, s1b_body }; void *args[] = { (void *)0, (void *)1 };
+    cs_run(2, b, args);
+    for (int i = 0; i < 2; i++) { CS_CHECK(s1_mid[i] != 1, "thread %d: lookup of its reserved but unregistered identifier %d returned a taskpool", i, got_id[i]); CS_CHECK(s1_mid[i] != 2, "thread %d: lookup of its registered identifier %d did not return its taskpool", i, got_id[i]); }
+    int reg[NT + 2] = { 1, 1, 0, 0, 0 }; finish(0, 2, reg);
 }
 /* --- scenario 2: one pre-registered pool (array size 2): T0 reserve+register+unregister, T1 reserve+register, T2 looks up ids 1..3 twice --- */
 static int s2_bad; static char s2_msg[200];
@@ -84,7 +94,7 @@ static void s2_t1(void *a) { (void)a; int id = v_reserve(1); v_register(1); if (
 static void s2_t2(void *a)
 {
     (void)a;
-    for (int round = 0; round < 2; round++) for (int id = 1; id <= 3; id++) {
+    for (int round = 0; round < 1; round++) for (int id = 1; id <= 3; id++) {
         parsec_taskpool_t *p = v_lookup(id); int k = idx_of(p);
         if (k == -2) { s2_bad = 1; snprintf(s2_msg, sizeof(s2_msg), "lookup(%d) returned a pointer that is no taskpool", id); }
         else if (k >= 0 && (int)p->taskpool_id != id) { s2_bad = 1; snprintf(s2_msg, sizeof(s2_msg), "lookup(%d) returned taskpool %d whose identifier is %u", id, k, p->taskpool_id); }
@@ -114,6 +124,11 @@ static void scen3(void)
     int reg[NT + 2] = { 1, 1, 1, 1, 0 }; finish(0, 4, reg);
 }
 static cs_scenario_t scenarios[] = {
-    { "reserve3_fresh", scen1, 0 }, { "reserve_unregister_lookup", scen2, 0 }, { "two_by_two_growth", scen3, 0 },
+    { "reserve_register_lookup", scen1b, 0 }, { "two_by_two_growth", scen3, 0 }, { "reserve3_fresh", scen1, 0 }, { "reserve_unregister_lookup", scen2, 0 },
 };
-int main(int argc, char **argv) { return cs_main(argc, argv, "C37", scenarios, 3, NULL); }
+int main(int argc, char **argv)
+{
+    int n = 4; const char *set = getenv("C37_SET");       /* C37_SET=a,b restricts the run (check.py uses different bounds per group) */
+    if (set && *set) { n = 0; for (int i = 0; i < 4; i++) { const char *q = strstr(set, scenarios[i].name); size_t l = strlen(scenarios[i].name); if (q && (q == set || q[-1] == ',') && (q[l] == 0 || q[l] == ',')) scenarios[n++] = scenarios[i]; } if (!n) return 2; }
+    return cs_main(argc, argv, "C37", scenarios, n, NULL);
+}
